@@ -26,7 +26,7 @@ RULE = (
     "or a failed entry in some generation, or a -sf generation; distinct by canonical scenario hash."
 )
 ASSUMPTIONS = ["no nested histories and no rename records (the statement's precondition)", "default ignore patterns"]
-BUDGET = {"quick": (220, 4), "thorough": (8000, 16)}
+BUDGET = {"quick": (220, 4), "thorough": (64000, 16)}
 REQUIRED = ["format_change", "failed_entry", "sf_generation", "pl_ok", "pl_altered", "pl_new_file"]
 
 CFG = {
